@@ -174,6 +174,20 @@ def run(ctx):
                 pvlib.report_violation(ctx, f"warc_parallel:{j}:{z}:{hx(data)[:40]}", {"argv": ["warc_parallel"] + args + ["cat"], "stdin_hex": hx(data)[:200000], "status": st,
                                        "stderr": err.decode(errors="replace")[-300:]}, summary=f"warc_parallel {' '.join(args)} cat: {problem}")
                 break
+    # -z: every record is compressed on its own with util::GZCompress; its buffer-edge cases come up about once in 1500
+    # records of 60..130 kB, so the routine is also driven directly on several thousand record-sized bodies (in parallel)
+    from concurrent.futures import ThreadPoolExecutor
+    implz = os.path.join(ctx.bdir, "harness", "implcompress")
+    nproc, per = 16, (300 if ctx.tier == "quick" else 4000)
+    gops = [f"z.gzcompressrand {ctx.seed * 100 + 50 + k} {per} 60000 130000" for k in range(nproc)]
+    with ThreadPoolExecutor(max_workers=nproc) as ex:
+        gres = list(ex.map(lambda o: pvlib.run_lines(implz, [o], env=pvlib.san_env(), timeout=3000, per_line_timeout=3000, stall=3000)[0], gops))
+    ctx.count("gzcompress-record-bodies", len(gops), gops)
+    for o, gzr in zip(gops, gres):
+        if not gzr.startswith("ok "):
+            pvlib.report_violation(ctx, "warc-z-member:" + o, {"ops": [o], "impl": gzr[:400]},
+                                   summary=f"the gzip member warc_parallel -z would write for a record body does not expand to that body ({o}): {gzr[:260]}")
+            break
     # several -i inputs (one reader thread each, all producing into the same queue) under a legal but unusual schedule:
     # every third pthread_mutex_unlock in warc_parallel is followed by a short sleep (nothing is dropped or reordered)
     shim = os.path.join(ctx.bdir, "harness", "faults_preload.so")
